@@ -1,5 +1,110 @@
-Require Import V.Lib.Base V.C20.Model.
+(* C20 - type-erased value holder keeps value semantics and single ownership.
+   Model: C20/Model.v (ownership ledger of ValueStore / ValueMap::add / NotifiedValue::doParse; RefCountable/IntrusiveSharedPtr).
+   Specification: C20/Spec.v (value semantics: a holder is empty or (representation, type, value); `sstep` is one line per operation).
+   `final H M tys ops` = the model state after the history `ops` over H client holders, one ValueMap with M names, any client pointer pool. *)
+Require Import V.Lib.Base V.C20.Model V.C20.Inv V.C20.Spec V.C20.Typed V.C20.Client V.C20.Refcount V.C20.Final.
 Local Open Scope Z_scope.
-Example c20_smoke : run_case [0; 1; 0; 1; 0; 6; 1; 10; 0] = [6; 1; 1; -1; 0; 0; 0; 0; 0; -1; 0; 0; -1; 0; 0; 0; 0; 0; 0; 0; 0; 0].
+
+(* c20_typed: after every history each holder (client holder or map entry) is empty or holds exactly the (type, value) that plain
+   value semantics assigns to it (srun: assign stores, copy copies, swap exchanges, clear/surrender empty, adopt takes the client's
+   object, a write through value_cast changes that holder only); value_cast<T> yields that value iff T is the stored type and
+   "null / bad_value_cast" otherwise; typed access never touches a dead object or one of another type and changes nothing. *)
+Theorem c20_typed : forall (H M : nat) (tys : list Z) (ops : list op),
+  let s := final H M tys ops in
+  err s = false /\
+  abs s = srun H M tys (ainit H M) ops /\
+  (forall i ty, fst (cast s i ty) = a_cast (srun H M tys (ainit H M) ops) i ty /\ snd (cast s i ty) = s).
+Proof. exact typed_main. Qed.
+Print Assumptions c20_typed.
+
+Theorem c20_typed_cast : forall (a : ast) (i : nat) (ty v : Z),
+  a_cast a i ty = Some v <-> exists r, aslot a i = Some (r, ty, v).
+Proof. exact a_cast_spec. Qed.
+Print Assumptions c20_typed_cast.
+
+(* the member-call composition with operator='s temporary ValueStore is the client-level one-liner *)
+Theorem c20_typed_spec : forall (H M : nat) (tys : list Z) (a : ast) (o : op),
+  AWf H M a -> snd (astep H M tys a o) = sstep H M tys a o.
+Proof. exact astep_sstep. Qed.
+Print Assumptions c20_typed_spec.
+
+(* c20_independent: a copy (operator= or copy construction, i <> j) holds an equal value in a distinct object, and whatever
+   later operations do to one of the two holders does not change the other (as long as they do not name it). *)
+Theorem c20_independent : forall (H M : nat) (tys : list Z) (ops1 : list op) (i j : Z) (rest : list op) (copy : op),
+  okh H i = true -> okh H j = true -> i <> j -> copy = OAssign i j \/ copy = OConsCopy i j ->
+  let s1 := final H M tys (ops1 ++ [copy]) in
+  let s2 := final H M tys ((ops1 ++ [copy]) ++ rest) in
+  aslot (abs s1) (hslot i) = aslot (abs s1) (hslot j) /\
+  (forall a b, hptr (slot s1 (hslot i)) = Some a -> hptr (slot s1 (hslot j)) = Some b -> a <> b) /\
+  ((forall o, In o rest -> ~ In i (targets o)) -> aslot (abs s2) (hslot i) = aslot (abs s1) (hslot i)) /\
+  ((forall o, In o rest -> ~ In j (targets o)) -> aslot (abs s2) (hslot j) = aslot (abs s1) (hslot j)).
+Proof. exact independent_main. Qed.
+Print Assumptions c20_independent.
+
+(* c20_once: for every history the error flag (destructor on a non-live object, copy from / write to / read of a non-live object
+   or one of another type) is never raised, also not while everything is torn down; after the history no object has two owners and an
+   object is live iff somebody owns it; every destructor ran at most once; and when all holders and the map are gone (finish) the live
+   objects are exactly the client's objects and every other object was destroyed exactly once - whether it was stored in place or on
+   the heap. *)
+Theorem c20_once : forall (H M : nat) (tys : list Z) (ops : list op),
+  let s := snd (run_ops H M tys (init H M) ops) in
+  let f := finish H M s in
+  err s = false /\ err f = false /\
+  NoDup (owned s) /\ (forall id, In id (owned s) <-> live (led s) id = true) /\
+  (forall e, In e (led s) -> e_dc e = 0 \/ e_dc e = 1) /\
+  cl f = cl s /\
+  (forall id e, nth_error (led f) id = Some e ->
+     (In id (cl s) /\ e_dc e = 0) \/ (~ In id (cl s) /\ e_dc e = 1)) /\
+  leaked f = false.
+Proof. exact V.C20.Once.once_main. Qed.
+Print Assumptions c20_once.
+
+(* c20_valuemap: ValueMap::add with the pointer the entry already holds neither destroys nor re-adopts it: the state is unchanged.
+   (assimilate_own_pointer_errs below: without the comparison in ValueMap::add the model reports a destruction of a dead object.) *)
+Theorem c20_valuemap : forall (H M : nat) (tys : list Z) (ops : list op) (n ty : Z) (id : nat),
+  let s := final H M tys ops in
+  okm M n = true -> mpres s n = true -> slot s (mslot H n) = HHeap ty id ->
+  step H M tys s (OMapAddSame n) = ([], s).
+Proof. exact valuemap_main. Qed.
+Print Assumptions c20_valuemap.
+
+Example c20_valuemap_guard_needed :
+  let s := final 0 1 [4] [ONew 4 7; OMapAdd 0 0] in
+  slot s (mslot 0 0) = HHeap 4 0 /\ err s = false /\ err (p_clear (mslot 0 0) (vs_assimilate (mslot 0 0) 0 s)) = true.
+Proof. exact assimilate_own_pointer_errs. Qed.
+
+(* c20_refcount: after every history over any number of SharedOptPtr variables and containers (OptionGroup, ParsedValues,
+   OptionContext) no dead option was touched, a live option's refCount_ is the number of its holders (>= 1), an option without holder
+   has been destroyed exactly once; when every holder is gone every option has been destroyed exactly once. *)
+Theorem c20_refcount : forall (S_ C_ : nat) (ops : list rop),
+  let s := snd (rrun_ops S_ C_ (rinit S_ C_) ops) in
+  let f := rfinish S_ C_ s in
+  rerr s = false /\
+  (forall o x, nth_error (opts s) o = Some x ->
+     (o_dc x = 0 /\ o_rc x = holders s o /\ 1 <= holders s o) \/ (o_dc x = 1 /\ holders s o = 0)) /\
+  rerr f = false /\
+  (forall o x, nth_error (opts f) o = Some x -> o_dc x = 1).
+Proof. exact refcount_main. Qed.
+Print Assumptions c20_refcount.
+
+(* ---- non-vacuity ---- *)
+Example c20_valuemap_hypotheses_hold :
+  let s := final 1 1 [4] [OParse 0 5 1] in
+  okm 1 0 = true /\ mpres s 0 = true /\ slot s (mslot 1 0) = HHeap 4 0.
+Proof. exact valuemap_hyps. Qed.
+
+Example c20_independent_instance :
+  let s1 := final 2 0 [] ([OConsVal 1 4 7] ++ [OAssign 0 1]) in
+  let s2 := final 2 0 [] (([OConsVal 1 4 7] ++ [OAssign 0 1]) ++ [OSetVal 1 9; OClear 1]) in
+  aslot (abs s1) (hslot 0) = Some (false, 4, 7) /\ aslot (abs s2) (hslot 0) = Some (false, 4, 7) /\ aslot (abs s2) (hslot 1) = None.
+Proof. exact independent_instance. Qed.
+
+Example c20_awf_reachable : AWf 2 1 (abs (final 2 1 [4] [OConsVal 0 6 1; OAssign 1 0; OParse 0 3 1])).
+Proof. exact (proj2 (final_abs 2 1 [4] [OConsVal 0 6 1; OAssign 1 0; OParse 0 3 1])). Qed.
+
+(* the run on a concrete case: swap of an in-place bool with a heap string, then clear both *)
+Example c20_smoke :
+  run_case [0; 2; 0; 3; 0; 6; 1; 3; 1; 9; 55; 5; 0; 1] =
+  [6; 1; 1; -1; -1; 0; 0; -1; 0; 0; 0; 0; 0;   6; 1; 1; -1; 9; 55; 0; -1; 0; 0; 0; 0; 0;   9; 55; 0; -1; 6; 1; 1; -1; 0; 0; 0; 0; 0;   0; 0; 0; 0; 0].
 Proof. vm_compute. reflexivity. Qed.
 Print Assumptions c20_smoke.
